@@ -652,7 +652,7 @@ macro_rules! user_closure_body {
                 }
             }
         } else {
-            let mut buf = InOutBuf::new($self.inp, $self.out).expect("harness: equal lengths");
+            let mut buf = InOutBuf::new($self.inp, $self.out).expect("contract: a b2b call with equal-length buffers was rejected");
             if order == 3 {
                 for b in buf {
                     $backend.$blk(b);
@@ -838,7 +838,7 @@ fn enc_padded<M: BlockModeEncrypt, P: Padding<M::BlockSize>>(
             out[..n].copy_from_slice(&msg[..n]);
             let base = out.as_ptr();
             let r = m.encrypt_padded::<P>(out, msg.len()).map_err(|_| ())?;
-            assert!(r.as_ptr() == base, "harness: returned slice does not start at the buffer");
+            assert!(r.as_ptr() == base, "contract: the slice returned by an in-place padded operation does not start at the buffer");
             Ok(r.to_vec())
         }
         Form::B2b => {
@@ -918,7 +918,7 @@ where
             }
             BKind::BlocksB2b => {
                 m.encrypt_blocks_b2b(chunks::<M::BlockSize>(inp), chunks_mut::<M::BlockSize>(out))
-                    .expect("harness: equal lengths");
+                    .expect("contract: a b2b call with equal-length buffers was rejected");
             }
             BKind::BackendIp => {
                 out.copy_from_slice(inp);
@@ -951,7 +951,7 @@ where
                     Some(f) => (f.blocks_b2b)(m, chunks::<M::BlockSize>(inp), chunks_mut::<M::BlockSize>(out)),
                     None => m.encrypt_blocks_b2b(chunks::<M::BlockSize>(inp), chunks_mut::<M::BlockSize>(out)).is_ok(),
                 };
-                assert!(ok, "harness: equal lengths");
+                assert!(ok, "contract: a b2b call with equal-length buffers was rejected");
             }
         }
     }
@@ -1055,7 +1055,7 @@ where
             }
             BKind::BlocksB2b => {
                 m.decrypt_blocks_b2b(chunks::<M::BlockSize>(inp), chunks_mut::<M::BlockSize>(out))
-                    .expect("harness: equal lengths");
+                    .expect("contract: a b2b call with equal-length buffers was rejected");
             }
             BKind::BackendIp => {
                 out.copy_from_slice(inp);
@@ -1088,7 +1088,7 @@ where
                     Some(f) => (f.blocks_b2b)(m, chunks::<M::BlockSize>(inp), chunks_mut::<M::BlockSize>(out)),
                     None => m.decrypt_blocks_b2b(chunks::<M::BlockSize>(inp), chunks_mut::<M::BlockSize>(out)).is_ok(),
                 };
-                assert!(ok, "harness: equal lengths");
+                assert!(ok, "contract: a b2b call with equal-length buffers was rejected");
             }
         }
     }
@@ -1435,7 +1435,7 @@ fn seek_impl<T: StreamCipherSeekCore>(w: &mut StreamCipherCoreWrapper<T>, ty: Se
 fn pos_impl<T: StreamCipherSeekCore>(w: &StreamCipherCoreWrapper<T>, ty: SeekTy) -> Result<u128, ()> {
     match ty {
         SeekTy::I32 => w.try_current_pos::<i32>().map(|v| {
-            assert!(v >= 0, "harness: negative position reported");
+            assert!(v >= 0, "contract: negative position reported");
             v as u128
         }).map_err(|_| ()),
         SeekTy::U32 => w.try_current_pos::<u32>().map(|v| v as u128).map_err(|_| ()),
@@ -1655,7 +1655,7 @@ where
     T::Inner: KeyInit,
     T::Counter: TryFrom<u128>,
 {
-    let mut core: T = construct(Ctor::Inner, key, iv).expect("harness: ctor");
+    let mut core: T = construct(Ctor::Inner, key, iv).expect("contract: constructor rejected a key/IV of the right length");
     let p = T::Counter::try_from(pos).ok().expect("harness: block position fits the counter type");
     core.set_block_pos(p);
     wrap_seek(core, Some(clone_impl::<T>))
@@ -1666,7 +1666,7 @@ where
     T::Inner: KeyInit,
     T::Counter: TryFrom<u128>,
 {
-    let mut core: T = construct(Ctor::Inner, key, iv).expect("harness: ctor");
+    let mut core: T = construct(Ctor::Inner, key, iv).expect("contract: constructor rejected a key/IV of the right length");
     let p = T::Counter::try_from(pos).ok().expect("harness: block position fits the counter type");
     core.set_block_pos(p);
     wrap_seek(core, lookup_clone::<StreamCipherCoreWrapper<T>>().0)
@@ -1812,7 +1812,7 @@ where
         let ad = *self;
         let c = ad.c;
         if b2b {
-            let b = InOutBuf::new(inp, out).expect("harness: equal lengths");
+            let b = InOutBuf::new(inp, out).expect("contract: a b2b call with equal-length buffers was rejected");
             c.try_apply_keystream_partial(b).is_ok()
         } else {
             out.copy_from_slice(inp);
